@@ -29,6 +29,9 @@ package fs
 //@ func copyXAttrs
 //@   property C13 C14
 //@   effects LListxattr LListxattrRes LGetxattr LSetxattr XattrErr
+// an attribute the destination already has is replaced (directories that exist in the destination
+// get the source's attributes again on every copy: "repeating a successful copy changes nothing")
+//@   at call sysx.LSetxattr: replaces_an_existing_attribute: arg3 == 0
 //@   ensures every_listed_attribute_attempted: result == nil && arg(LListxattrRes, 1) == nil ==> cnt(LGetxattr) == old(cnt(LGetxattr)) + arg(LListxattrRes, 0)
 //@   loop 0 invariant each_key_read: cnt(LGetxattr) == old(cnt(LGetxattr)) + rangeindex + 1 && cnt(LListxattrRes) == old(cnt(LListxattrRes)) + 1 && arg(LListxattrRes, 1) == nil && arg(LListxattrRes, 0) == len(xattrKeys) && rangeindex < len(xattrKeys)
 //@   loop 0 invariant dst_only: cnt(LSetxattr) == old(cnt(LSetxattr)) || arg(LSetxattr, 0) == dst
